@@ -51,6 +51,14 @@ CHECKS.update({
    ref="DESIGN.md §4 C12"),
 })
 
+CHECKS.update({
+ "C01": dict(
+   technique="property-based testing (proptest): generated class models encoded by an independent encoder under generated encoding choices; reference-model oracle plus metamorphic relation across encodings; oracle self-checked by an independent strict decoder",
+   text="Generated-input exploration: the generating model is ground truth; the tree duke reads is projected into the same model (opcodes, flag bits, table layouts re-derived from JVMS in the harness) and must be equal, for two independent encodings of every class (pool permutation, junk entries, attribute order, short/wide instruction forms, switch paddings, frame forms). Holds on everything explored apart from the listed known findings.",
+   note="Trusted: harness model/encoder/decoder/projection (self-checked per case: decode(encode(m))==m), duke::verif accessors. Only defined flag bits, valid Unicode, names valid for duke's types.",
+   ref="DESIGN.md §4 C01"),
+})
+
 NOT_YET = {
 }
 
